@@ -185,7 +185,9 @@ class Widget():
         y = col
 
         if wordwrap:
+            # wrapped text contains all the line breaks, lines never exceed the width
             text = self._wrap_words(text, width)
+            width = None
 
         # emulate typing machine
         for character in text:
@@ -234,19 +236,7 @@ class Widget():
         lines = []
         # Wrap each line separately
         for line in text.split('\n'):
-            sublines = []
-            for subline in wrap(line, width):
-                sublines.append(subline)
-                if len(subline) < width:
-                    # line shorter than width will be wrapped by '\n' we add
-                    sublines.append('\n')
-                # line with length == width will be wrapped by the width based
-                # wrapping logic
-            # end of line will be wrapped by '\n' following the line in
-            # original text
-            if sublines and sublines[-1] == '\n':
-                sublines.pop()
-            lines.append("".join(sublines))
+            lines.append("\n".join(wrap(line, width)))
         return '\n'.join(lines)
 
 
